@@ -7,6 +7,7 @@ from dataclasses import dataclass
 from functools import cached_property
 from typing import TYPE_CHECKING, Protocol
 
+import numpy as np
 from wadler_lindig import pformat
 
 from mxlpy.model import Model
@@ -96,7 +97,12 @@ class _Settings:
 
     @cached_property
     def scale(self) -> pd.Series | float:
-        return self.data.std()
+        # A constant column (std 0) or a single measurement (std NaN) has no spread
+        # to scale by: it is compared unscaled instead of turning the loss into NaN
+        scale = self.data.std()
+        if np.ndim(scale) == 0:
+            return scale if scale > 0 else 1.0
+        return scale.where(scale > 0, 1.0)
 
     @cached_property
     def data_scaled(self) -> pd.Series | pd.DataFrame:
